@@ -119,7 +119,15 @@ def run_verus_unit(unit, tier, use_cache=True):
     res["second_run"] = run.get("second_run")
     if run["status"] != "ran":
         res["undecided"].append(f"verus {run['status']}")
+    # Verification is modular: a function that ran out of resources leaves *its own* obligations undecided. When the same run has a
+    # definite failed obligation in another function, that failure is reported (the exhausted function's obligations are marked
+    # undecided one by one); with no failure anywhere the whole unit stays undecided, as before - never an alarm on its own.
+    has_fail = any(f.get("fn") for f in run["failures"])
+    rl_fns = set(fe["rlimit_fn"] for fe in run["frontend_errors"] if fe.get("rlimit_fn")) if has_fail else set()
     for fe in run["frontend_errors"]:
+        if fe.get("rlimit_fn") and has_fail:
+            res.setdefault("exhausted_functions", []).append(fe["rlimit_fn"])
+            continue
         res["undecided"].append("verus front end: " + fe["message"][:300])
     js = run.get("json") or {}
     vr = js.get("verification-results", {})
@@ -159,7 +167,7 @@ def run_verus_unit(unit, tier, use_cache=True):
             fl = failed.get((fn, cname))
             ob = {"name": f"{unit}.{fn}.{cname}", "unit": unit, "fn": fn, "clause": cname, "props": props, "src": f["src"], "backend": "verus+z3", "kind": "proof",
                   "solver_s": round(ftime.get(fn, 0.0), 3)}
-            if not decided:
+            if not decided or (fn in rl_fns and not fl):
                 ob["status"] = "undecided"
             elif fl:
                 ob["status"] = "failed"
